@@ -100,7 +100,8 @@ func TestVF_C13(t *testing.T) {
 			}
 		}(c)
 	}
-	if _, ok := vfReplayCase(); !ok {
+	// the kill-inside-bolt sweep carries case_index -1 in its records
+	if idx, ok := vfReplayCase(); !ok || idx == -1 {
 		wg.Add(1)
 		go func() {
 			defer wg.Done()
